@@ -198,6 +198,14 @@ def check_case(case, ctx):
             nontrivial = True
         ctx.at("C03.wind")
         wound = conv.wind(d, grid_kind=ke, **wk)
+        if kind == "face":
+            # the face grid is the default grid kind: leaving grid_kind out changes nothing,
+            # however many nodes or edges the mesh happens to have
+            plain = conv.wind(d, **wk)
+            ctx.check(plain.dims == wound.dims and _arrays_identical(plain.values, wound.values),
+                      "C03.wind_dims",
+                      lambda: f"wind(d{dims}, {wk}) without grid_kind has dims {plain.dims}; with "
+                      f"grid_kind=face {wound.dims}")
         want_dims = tuple(dims[:pos]) + tuple(kd) + tuple(dims[pos + 1:])
         ctx.check(tuple(wound.dims) == want_dims, "C03.wind_dims",
                   lambda: f"wind(d{dims}, {wk}) on {kind} has dims {wound.dims}; expected {want_dims}")
